@@ -585,7 +585,13 @@ class C18(PropCheck):
         return res
 
     def run_impl(self, case):
-        return self.run_vec(case) if case['kind'] == 'vec' else self.run_ext(case)
+        if case['kind'] == 'vec':
+            out = self.run_vec(case)
+            self.bump('outcome:vec:%s:%s' % (case['mode'], out['error'] or 'ok'))
+        else:
+            out = self.run_ext(case)
+            self.bump('outcome:ext:%s:%s' % (case['mode'], out['outcome']))
+        return out
 
     # -- python-side clauses ---------------------------------------------------------------------
     def py_check(self, case, out):
